@@ -76,6 +76,8 @@ def pfeat(p, spec):
     return {
         "param_kind": p["kind"], "default_class": p["default_class"], "annotated": p["annotation"] is not None,
         "documented": p["documented"], "doc_typ": p.get("doc_typ") is not None,
+        "doc_states_default": p.get("doc_states_default", False),
+        "some_doc_states_default": any(q.get("doc_states_default") for q in spec.params),
     }
 
 
@@ -103,6 +105,8 @@ def check_ir(ctx, base, replay, spec, ir, sig_names, via, cvars=()):
     for n in common_e:
         p, q = byname[n], ir["params"][n]
         f = pfeat(p, spec)
+        idx = [x["name"] for x in params].index(n)
+        f["after_doc_stated_default"] = any(x.get("doc_states_default") for x in params[:idx])
         # default
         od = canon_default(q.get("default", ABSENT))
         acc = expected_default(p)
@@ -150,7 +154,8 @@ def one_function(ctx, spec, via="ast"):
 
     base = {"op": OP, "kind": "function", "via": via, "fn_kind": spec.kind, "doc_style": spec.style, "doc_mode": spec.doc_mode,
             "doc_order": spec.order, "has_doc": spec.has_doc,
-            "partial_pos_defaults": _partial(spec)}
+            "partial_pos_defaults": _partial(spec),
+            "some_doc_states_default": any(p.get("doc_states_default") for p in spec.params)}
     replay = {"src": spec.src, "spec": {k: v for k, v in spec.items() if k != "src"}, "via": via}
     ns = exec_ns()
     exec(compile(spec.src, "<generated>", "exec"), ns)
@@ -269,7 +274,7 @@ def run(ctx):
     tmpdir = tempfile.mkdtemp(prefix="dtverif-c07-")
     try:
         for i in range(n):
-            spec = gen_function(ctx.rng, force_partial_defaults=(i % 4 == 0))
+            spec = gen_function(ctx.rng, force_partial_defaults=(i % 4 == 0), p_default_sentence=0.5 if i % 3 == 2 else 0.0)
             ctx.case(spec_sig(spec), nontrivial=bool(spec.params),
                      sample={"src": spec.src, "doc_mode": spec.doc_mode, "order": spec.order, "style": spec.style},
                      sample_key=(spec.style, spec.doc_mode))
